@@ -175,7 +175,7 @@ class C17(Prop):
         "p:stored-pruned", "p:cond-raised", "d:peptide", "d:short", "d:evicted", "d:canary",
         "m:pruned-old", "m:prune-kept", "m:imported", "m:import-full", "m:reimport", "m:roundtrip",
         "m:forgot", "m:forgot-nothing", "m:recall-hit", "m:recall-miss", "d:cleared",
-        "e:sysdef", "e:sset", "e:rreg", "e:creg", "e:cexec", "e:cexec-failed", "e:cexec-unregistered", "e:unregistered", "k:health", "k:cell", "k:stats", "k:export", "k:repr", "k:agents", "k:tpeek",
+        "e:sysdef", "e:shadow", "e:sset", "e:rreg", "e:creg", "e:cexec", "e:cexec-failed", "e:cexec-unregistered", "e:unregistered", "k:health", "k:cell", "k:stats", "k:export", "k:repr", "k:agents", "k:tpeek",
     ]
     assumptions = [
         "fingerprint hashes are compared as opaque values (md5 prefixes treated as injective on the strings explored)",
@@ -282,21 +282,30 @@ class C17(Prop):
     # --------------------------------------------------------------------------------------------------------
     # building real objects from protocol values
     # --------------------------------------------------------------------------------------------------------
+    @staticmethod
+    def num(x):
+        """the Python number a caller would pass: a float — or a plain int for some whole values (100 percent, 2 seconds,
+        0 errors: nothing in the API converts, so ints reach every comparison and every mean)"""
+        x = F(x)
+        return int(x) if x.denominator == 1 and x.numerator % 2 == 0 else float(x)
+
     def mk_pep(self, agent, p):
+        num = self.num
         return self.T.MHCPeptide(
             agent_id=agent, timestamp=_dt.datetime(2026, 1, 1),
-            output_length_mean=float(p[0]), output_length_std=float(p[1]),
-            response_time_mean=float(p[2]), response_time_std=float(p[3]),
+            output_length_mean=num(p[0]), output_length_std=num(p[1]),
+            response_time_mean=num(p[2]), response_time_std=num(p[3]),
             vocabulary_hash=f"v{p[6]}", structure_hash=f"s{p[7]}",
-            confidence_mean=float(p[4]), confidence_std=float(p[5]),
-            error_rate=float(p[8]), error_types=(), canary_accuracy=None if p[9] is None else float(p[9]))
+            confidence_mean=num(p[4]), confidence_std=num(p[5]),
+            error_rate=num(p[8]), error_types=(), canary_accuracy=None if p[9] is None else num(p[9]))
 
     def mk_profile(self, agent, pr):
+        num = self.num
         return self.TH.BaselineProfile(
-            agent_id=agent, output_length_bounds=(float(pr[0]), float(pr[1])),
-            response_time_bounds=(float(pr[2]), float(pr[3])), confidence_bounds=(float(pr[4]), float(pr[5])),
-            error_rate_max=float(pr[6]), valid_vocabulary_hashes={f"v{x}" for x in pr[7]},
-            valid_structure_hashes={f"s{x}" for x in pr[8]}, canary_accuracy_min=float(pr[9]))
+            agent_id=agent, output_length_bounds=(num(pr[0]), num(pr[1])),
+            response_time_bounds=(num(pr[2]), num(pr[3])), confidence_bounds=(num(pr[4]), num(pr[5])),
+            error_rate_max=num(pr[6]), valid_vocabulary_hashes={f"v{x}" for x in pr[7]},
+            valid_structure_hashes={f"s{x}" for x in pr[8]}, canary_accuracy_min=num(pr[9]))
 
     def given_profile(self, st, agent, pr):
         """a BaselineProfile constructed from the bounds on a protocol line; the oracle judges "inside the baseline" by the
@@ -310,6 +319,36 @@ class C17(Prop):
         if g is not None and g[0] is prof:
             return g[1]
         return self.read_profile(prof)
+
+    def shadow(self, st):
+        """another, independent ImmuneSystem (all defaults) + stand-alone TCell / Treg / Thymus come alive next to the objects
+        under test and live through confirmed threats for the same agent ids and every hash pair the histories use, manual
+        flags, false alarms up to anergy, a stable clean record — and stay alive.  Objects do not share state: for the
+        system under test nothing happened."""
+        IS, TC, TR, TH = self.IS, self.TC, self.TR, self.TH
+        other = IS.ImmuneSystem()
+        base = (F(15), F(0), F(1), F(0), F(3, 4), F(0), 1, 1, F(0), None)
+        for a in ("a0", "a1", "a2"):
+            other.register_agent(a)
+            other.displays[a] = _Stub(a)
+            other.displays[a].pep = self.mk_pep(a, base)
+            other.train_agent(a)
+            other.flag_agent(a, "shadow")
+            for v in (1, 2, 3, 5, 6):
+                for sh in (1, 2, 5):
+                    other.displays[a].pep = self.mk_pep(a, base[:2] + (F(9),) + base[3:6] + (v, sh) + base[8:])
+                    other.inspect(a)
+            other.mark_agent_updated(a)
+        other.treg.rules.append(TR.SuppressionRule(name="shadow", condition=lambda r, rec: True,
+                                                   max_severity=self.T.ThreatLevel.CONFIRMED))
+        other.memory.capacity = 1
+        tc = TC.TCell(profile=self.mk_profile("a0", (F(0), F(0), F(0), F(0), F(0), F(0), F(0), [], [], F(0))),
+                      anergy_threshold=1)
+        tc.inspect(self.mk_pep("a0", base))
+        tc.reset_without_confirmation()                  # anergic from now on
+        th = TH.Thymus(min_training_samples=1, tolerance=0.0)
+        th.train("a0", [self.mk_pep("a0", base)])
+        st.setdefault("shadows", []).append((other, tc, th))
 
     def hid(self, h):
         """opaque hash string -> small integer (equality is all that matters)"""
@@ -603,6 +642,9 @@ class C17(Prop):
                         treg=TR.RegulatoryTCell(rules=self.mk_rules(t[6:]), stability_threshold=int(t[4])),
                         memory=self.MEM.ImmuneMemory(capacity=int(t[5])))
                     o = "ok"
+                elif op == "shadow" and len(t) == 1:
+                    self.shadow(st)
+                    o = "ok"
                 elif op == "sysdef" and len(t) == 1:
                     st["ims"] = IS.ImmuneSystem()                 # every component default-constructed
                     o = "ok"
@@ -678,7 +720,7 @@ class C17(Prop):
                                 raise Infra(f"obs line does not describe its rendering: {line!r} -> {text!r}")
                         err = None if t[8] == "-" else ("" if t[8] == "empty" else f"e{t[8]}")
                         n0 = len(d.observations)
-                        ims().record_observation(a, text, float(F(t[6])), float(F(t[7])), err)
+                        ims().record_observation(a, text, self.num(t[6]), self.num(t[7]), err)
                         o = f"ok n={len(d.observations)}"
                 elif op == "canary" and len(t) == 3:
                     a = f"a{int(t[1])}"
@@ -1767,7 +1809,7 @@ class C17(Prop):
         """repeat inspections with identical hashes under an active suppressing rule: the threat is lowered when it is
         first reported and stored; recalled answers must not be lowered again"""
         sev = rng.choice(["confirmed", "confirmed", "critical", "suspicious"])
-        cond = rng.choice(["T", "T", "C", "V1", "K0", "U", "U", "U"])
+        cond = rng.choice(["T", "T", "C", "V1", "K0", "U", "U", "U", "X"])      # X: the rule's condition raises
         extra = [f"{rng.choice(LEVELS)}:{rng.choice(CONDS[:-1])}" for _ in range(rng.choice([0, 0, 1]))]
         rules = [f"{sev}:{cond}"] + extra
         rng.shuffle(rules)
@@ -1900,6 +1942,11 @@ class C17(Prop):
                 continue
             if rng.random() < 0.2:
                 c = self.with_polls(rng, c)
+            if rng.random() < 0.1 and c["lines"] and c["lines"][0].split(" ")[0] in ("sys", "sysdef", "tcell", "tcfg", "treg"):
+                L = list(c["lines"])                     # other surveillance objects come alive in between
+                for _ in range(rng.choice([1, 1, 2])):
+                    L.insert(rng.randint(1, len(L)), "shadow")
+                c = dict(c, lines=L, note=c.get("note", "") + " + other objects alive")
             produced += 1
             yield c
 
